@@ -411,6 +411,8 @@ class Gen:
             return (8, self.sfx, self.pick(strs), [])
         if r < 0.45 and attr_strs:
             f, a = self.pick(attr_strs)
+            if self.rng.random() < 0.3 and "Age" in self.sh.obj_attrs.get(f, {}):
+                return (8, self.sfx, f, [self.pick(["Mgr", "Grp"]), "Name"])    # ...Mgr.Name / ...Grp.Name
             return (8, self.sfx, f, [a])
         if r < 0.75 and pf:
             return (9, self.sfx, self.pick(pf))
@@ -546,6 +548,12 @@ class Gen:
 
     def cond(self, d):
         r = self.rng.random()
+        nb = [f for f in ("idf", "second") if f in self.user]
+        if r < 0.08 and nb:
+            # a condition whose value is not a bool: result typing (core_enforcer.py:461-470), and/or operands
+            f = self.pick(nb)
+            t = self.str_term(d) if self.rng.random() < 0.7 else self.int_term(d)
+            return (5, f, [t] if f == "idf" else [self.any_term(d), t])
         if r < 0.6:
             return self.cmp(d)
         if r < 0.75:
@@ -646,6 +654,9 @@ def gen_request(rng, sh):
             attrs = {}
             for a, aty in sh.obj_attrs.get(f, {}).items():
                 attrs[a] = rng.choice([17, 18, 30, 70]) if aty == "int" else rng.choice(SUBS + OBJS[:2])
+            if "Age" in attrs:
+                attrs["Mgr"] = Obj(Name=rng.choice(SUBS))
+                attrs["Grp"] = Obj(Name=rng.choice(SUBS))
             if rng.random() < 0.1 and attrs:
                 attrs.pop(rng.choice(sorted(attrs)))          # a missing attribute now and then
             vals.append(Obj(**attrs))
